@@ -901,3 +901,14 @@ impl CatalogPersistence {
         Ok(())
     }
 }
+
+/// Verification-only access to the private catalog decoders (off unless the feature is enabled).
+#[cfg(feature = "kahflane_turdb_verif")]
+pub mod verif_hooks {
+    use super::CatalogPersistence;
+    use crate::schema::table::{ColumnDef, Constraint, IndexDef};
+    use eyre::Result;
+    pub fn deserialize_constraint(bytes: &[u8], pos: usize) -> Result<(Constraint, usize)> { CatalogPersistence::deserialize_constraint(bytes, pos) }
+    pub fn deserialize_column(bytes: &[u8], pos: usize) -> Result<(ColumnDef, usize)> { CatalogPersistence::deserialize_column(bytes, pos) }
+    pub fn deserialize_index(bytes: &[u8], pos: usize) -> Result<(IndexDef, usize)> { CatalogPersistence::deserialize_index(bytes, pos) }
+}
